@@ -389,7 +389,7 @@ func (env *TEnv) index(a, i TV, h Heap) (TV, error) {
 		return TV{S("select", S("select", h.Get(k), S("s-arr", a.T)), addOff(S("s-off", a.T), i.T)), t.Elem()}, nil
 	case *types.Map:
 		kv, _, _ := vc.mapKeys(t)
-		return TV{Ite(S("=", a.T, "0"), vc.eng.zero(t.Elem()), S("select", S("select", h.Get(kv), a.T), i.T)), t.Elem()}, nil
+		return TV{S("select", S("select", h.Get(kv), a.T), i.T), t.Elem()}, nil
 	case *types.Basic:
 		if t.Info()&types.IsString != 0 {
 			return TV{S("sbyte", a.T, i.T), types.Typ[types.Uint8]}, nil
@@ -528,7 +528,7 @@ func (env *TEnv) trCall(x *ECall) (TV, error) {
 				// true of every real map in every state: length zero iff no key
 				vc.assume(mapLenFact(vc, t, a.T, sh.Get(kl), sh.Get(kd)))
 			}
-			return TV{Ite(S("=", a.T, "0"), "0", S("select", env.cur.Get(kl), a.T)), tInt}, nil
+			return TV{S("select", env.cur.Get(kl), a.T), tInt}, nil
 		}
 		return TV{}, fmt.Errorf("len of %s", a.Ty)
 	case "has": // has(m, k): k is in the domain of map m
@@ -548,7 +548,7 @@ func (env *TEnv) trCall(x *ECall) (TV, error) {
 			return TV{}, fmt.Errorf("has on non-map %s", m.Ty)
 		}
 		_, kd, _ := vc.mapKeys(mt)
-		return TV{And(Not(S("=", m.T, "0")), S("select", S("select", env.cur.Get(kd), m.T), k.T)), tBool}, nil
+		return TV{S("select", S("select", env.cur.Get(kd), m.T), k.T), tBool}, nil
 	case "fresh": // allocated during the call
 		if err := argN(1); err != nil {
 			return TV{}, err
@@ -1103,7 +1103,7 @@ func (vc *FuncVC) revealed(name string) bool {
 func mapLenFact(vc *FuncVC, t *types.Map, m, lens, doms string) string {
 	ks := vc.eng.sortOf(t.Key())
 	ln := S("select", lens, m)
-	return Imp(Not(S("=", m, "0")), And(S("<=", "0", ln),
+	return Imp("true", And(S("<=", "0", ln),
 		S("=", S("=", ln, "0"), fmt.Sprintf("(forall ((k!l %s)) (! (not (select (select %s %s) k!l)) :pattern ((select (select %s %s) k!l))))", ks, doms, m, doms, m))))
 }
 
